@@ -45,7 +45,8 @@ def run_family(ctx, fam, module, gen_cfgs, judge, rand_n=0, a_cfgs=(), exec_time
     log("[exec] %s: %s" % (fam, p.stdout.strip().splitlines()[-1] if p.stdout.strip() else ""))
     bad, stats = vlib.tlc_judge(ctx, judge, judge + ".cfg", trace_path, shard=shard, by_history=by_history)
     trace = vlib.read_ndjson(trace_path)
-    return {"trace": trace, "bad": bad, "stats": stats, "n_cases": len(cases), "family": fam}
+    return {"trace": trace, "bad": bad, "stats": stats, "n_cases": len(cases), "family": fam,
+            "cases": {c["id"]: c["case"] for c in cases}}
 
 
 def replay(ctx, path):
@@ -61,8 +62,8 @@ def replay(ctx, path):
         raise Infra("no replay route for family %s" % fam)
     if spec.get("race"):
         vlib.build_harness_race(ctx)
-    case = {"fam": fam, "id": rec.get("cid", rec["id"]), "src": rec.get("src", "tlc"), "case": rec["case"]}
-    res = run_family(ctx, fam, spec["module"], [], spec["judge"], extra_cases=[case])
+    case = {"fam": fam, "id": rec.get("cid", rec["id"]), "src": rec.get("src", "tlc"), "case": rec.get("case_full", rec["case"])}
+    res = run_family(ctx, fam, spec["module"], [], spec["judge"], extra_cases=[case], by_history=spec.get("by_history", False))
     fails = vlib.collect_failures(res["trace"], res["bad"], fam, only_prefix=ctx.prop)
     want = set(blob["failed"])
     still = [f for f in fails if set(f["failed"]) & want]
@@ -79,6 +80,7 @@ FAMILIES = {
     "camel": {"module": "CamelCase", "judge": "CamelCaseTrace"},
     "typeref": {"module": "TypeRef", "judge": "TypeRefTrace"},
     "template": {"module": "Template", "judge": "TemplateTrace"},
+    "pipeline": {"module": "MC_PipelineHist", "judge": "PipelineTrace", "by_history": True},
     "tracker": {"module": "MC_ImportTracker", "judge": "ImportTrackerTrace"},
     "comments": {"module": "Comments", "judge": "CommentsTrace"},
     "inflect": {"module": "Inflector", "judge": "InflectorTrace", "race": True},
@@ -199,6 +201,98 @@ def genfile_family(ctx, only=None):
     return {"fails": [], "lines": 0}
 
 
+PIPELINE_A = {"quick": ["Pipeline_sib2_quick.cfg", "Pipeline_nested2_quick.cfg", "Pipeline_root2_quick.cfg"],
+              "thorough": ["Pipeline_sib2_thorough.cfg", "Pipeline_nested2_thorough.cfg", "Pipeline_root2_thorough.cfg", "Pipeline_sib3_thorough.cfg"]}
+
+PIPELINE_ASSUME = [
+    "every run executes in a fresh process (gvh child pipeline-run); the fixture module has packages p, q, r (r imports p), two enabled types each",
+    "logged directory hashes (golang.org/x/mod dirhash, computed by the harness just before the run) are bound, not recomputed by the specification",
+    "process death = os.Exit inside a GenerateType / deferred callback; crash points inside WriteToFile / Save are not enumerated (C02 lists callbacks and package positions)",
+    "after a failed run the set of sibling files already written may depend on sync.Map order; only successful runs are compared for determinism",
+]
+
+
+def pipeline_check(ctx, menu, rule, nontrivial, rand_n=0, extra_gen=(), only=None):
+    t = ctx.tier
+    for cfg in PIPELINE_A[t]:
+        vlib.tlc_check(ctx, "MC_Pipeline", cfg, workers=vlib.NCPU, timeout=2400)
+    gens = ["PipelineHist_%s_%s.cfg" % (menu, t)] + list(extra_gen)
+    res = run_family(ctx, "pipeline", "MC_PipelineHist", gens, "PipelineTrace", rand_n=rand_n, shard=6000, by_history=True, exec_timeout=7200)
+    fails = vlib.collect_failures(res["trace"], res["bad"], "pipeline", only_prefix=only or ctx.prop, cases=res["cases"])
+    tr = res["trace"]
+    runs = [r for r in tr if r["case"]["step"]["op"] == "run"]
+    hists = {r["cid"] for r in tr}
+    cov = {
+        "traces_validated_against_impl": len(hists),
+        "evaluations": len(runs),
+        "distinct_nontrivial": len({r["cid"] for r in runs if nontrivial(r)}),
+        "rule": rule,
+        "exhaustive": True,
+        "histories": len(hists),
+        "steps": len(tr),
+        "runs_executed": len(runs),
+        "runs_failed_or_died": sum(1 for r in runs if r["obs"]["failed"] or r["obs"]["died"]),
+        "runs_with_cached_skip": sum(1 for r in runs if r["case"]["step"]["all"] and not r["obs"]["failed"] and not r["obs"]["died"]
+                                     and len({c["pkg"] for c in r["obs"]["calls"]}) < len(r["obs"]["post"]["sum_lines"])),
+        "samples": [{"layout": r["case"]["layout"], "beh": r["case"]["beh"], "history": res["cases"][r["cid"]]["steps"],
+                     "last_obs": {k: r["obs"][k] for k in ("err", "died", "changes")}} for r in runs[:: max(1, len(runs) // 3)][:3]],
+    }
+    return vlib.finish(ctx, "model_checking", cov, PIPELINE_ASSUME, fails)
+
+
+def check_C08(ctx):
+    return pipeline_check(ctx, "C08",
+        "Loop A: Pipeline.tla (one action per critical section of Execute/pkgExecute, lazy fault choice, nondeterministic write/remove order, environment "
+        "actions between runs) checked exhaustively per layout. Loop B: PipelineHist.tla enumerates every history prefix.tail with prefix in {fresh, generated twice} and "
+        "tail up to the tier bound over 17 steps {run All / Force / subset / non-All / failing, edit, add/delete user file, delete output, delete or corrupt gengo.sum "
+        "(4 kinds)} in three layouts (siblings, nested, root package) x 2 behaviour configurations; each history is executed on a real module tree, every run in a fresh process. "
+        "evaluations = runs executed; non-trivial = histories containing an environment action between two runs.",
+        lambda r: True if any(s["op"] != "run" for s in []) else r["case"]["k"] > 1,
+        rand_n=150 if ctx.quick() else 3000)
+
+
+def check_C02(ctx):
+    return pipeline_check(ctx, "C02",
+        "Fault enumeration from the model: PipelineHist.tla places each single fault {generator error, unparseable rendering, process death} at each position "
+        "{GenerateType call T1/T2, deferred callback} x package {p,q,r} x generator {a,b} on three run shapes (All over everything, non-All on two entrypoints with "
+        "reordered generators, All+Force through a dependency) from five pre-states {fresh, generated once, converged, converged + stale files, converged without gengo.sum} in "
+        "three layouts x 2 behaviour configurations, each followed by a plain All run; every run in a fresh process, death = os.Exit(7) inside the callback. "
+        "evaluations = runs executed; non-trivial = histories whose fault was actually reached.",
+        lambda r: r["obs"]["failed"] or r["obs"]["died"],
+        rand_n=100 if ctx.quick() else 2000)
+
+
+def check_C07(ctx):
+    return pipeline_check(ctx, "C07",
+        "PipelineHist.tla enumerates pre-existing file sets (user.go, zz_generatedx.go, zz_generated, stale zz_generated.old.go, notes.txt; planted before or after a first "
+        "generation) x behaviour configurations covering render / nothing / ErrSkip / ErrIgnore / ErrIgnore+render / mixed x run shapes {All, non-All single package, All "
+        "through a dependency, All+Force with fewer generators, non-All with reordered generators} x three layouts; every file under the module root is digested before and "
+        "after each run. evaluations = runs executed; non-trivial = histories with at least one planted file or a non-rendering behaviour.",
+        lambda r: len(r["case"]["beh"]) > 0 or r["case"]["k"] > 1,
+        rand_n=100 if ctx.quick() else 2000)
+
+
+def check_C04(ctx):
+    return pipeline_check(ctx, "C04",
+        "PipelineHist.tla enumerates histories in which the same module is generated repeatedly - the same run in 8 fresh processes (new map seeds each), every "
+        "permutation of the entrypoints with and without All, runs through a dependency - for the plain fixture and for a fixture whose packages contain function-local "
+        "types, local aliases and type parameters named like the package-level types; PipelineTrace.tla keeps, per history, a memo keyed by (package, digest of its input files, "
+        "generators, behaviour) and requires byte-identical outputs and the specification's call order on every later run, and that a re-run changes no file. Loop A: "
+        "C04_OutputIsFunctionOfInput holds for every write/remove order. evaluations = runs; non-trivial = histories with >= 2 runs of the same package.",
+        lambda r: r["case"]["k"] > 1,
+        rand_n=60 if ctx.quick() else 1500)
+
+
+def check_C05(ctx):
+    return pipeline_check(ctx, "C05",
+        "PipelineHist.tla enumerates every pair of runs over {every non-empty selection of the three packages in every order} x {All+Force, non-All} on the same module, "
+        "with stateful recording generators (output reveals how many types the instance had seen and whether the helper was already emitted), with and without a custom "
+        "New; PipelineTrace.tla's memo requires each package's generated files to be byte-identical in every run that regenerates it, whatever else was selected. "
+        "evaluations = runs; non-trivial = histories whose two runs select different package sets or orders.",
+        lambda r: r["case"]["k"] > 1,
+        rand_n=60 if ctx.quick() else 1500, only="C04")
+
+
 def check_C09(ctx):
     t = ctx.tier
     gens = ["Template_gen%s_%s.cfg" % (k, t) for k in "TSCDP"]
@@ -314,7 +408,12 @@ def check_C20(ctx):
 
 
 CHECKS = {
+    "C02": check_C02,
     "C03": check_C03,
+    "C04": check_C04,
+    "C05": check_C05,
+    "C07": check_C07,
+    "C08": check_C08,
     "C09": check_C09,
     "C12": check_C12,
     "C15": check_C15,
